@@ -252,7 +252,18 @@ class NDNApp:
         # The lifetime runs from now, not from the moment the caller starts to await the result
         lifetime = 100 if interest_param.lifetime is None else interest_param.lifetime
         deadline = aio.get_running_loop().time() + lifetime / 1000.0
+        # The caller may start to await the result much later (or never): the lifetime has a timer of its own
+        aio.get_running_loop().call_at(deadline, self._expire_interest, future, node_name, node)
         return self._wait_for_data(future, deadline, node_name, node, validator, need_raw_packet)
+
+    def _expire_interest(self, future: aio.Future, node_name: FormalName, node: InterestTreeNode):
+        if future.done():
+            return
+        if node.timeout(future) and self._int_tree.get(node_name) is node:
+            del self._int_tree[node_name]
+        future.set_exception(InterestTimeout())
+        # Nobody may be waiting (yet): do not let asyncio report the exception as never retrieved
+        future.exception()
 
     async def _wait_for_data(self, future: aio.Future, deadline: float, node_name: FormalName,
                              node: InterestTreeNode, validator: Validator, need_raw_packet: bool):
